@@ -289,6 +289,11 @@ func c04maxk(a, b int) int {
 var c04binops = []string{"+", "-", "*", "/", "%", "&", "|", "^", "&^", "<<", ">>", "==", "!=", "<", "<=", ">", ">=", "&&", "||"}
 var c04unops = map[string]string{"neg": "-", "pos": "+", "cpl": "^", "not": "!"}
 
+func c04isTypedShift(t string) bool {
+	_, _, _, ok := c04typedShift(t)
+	return ok
+}
+
 func c04isBinop(t string) bool {
 	for _, o := range c04binops {
 		if o == t {
@@ -475,6 +480,33 @@ func (ev *c04eval) unary(op string, x *c04val) *c04val {
 	return nil
 }
 
+// typed-count shift token: "<<uint8" = x << uint8(count), "<<uint8k" = const k uint8 = count; x << k
+func c04typedShift(t string) (op, typ string, decl, ok bool) {
+	if len(t) < 5 || (t[:2] != "<<" && t[:2] != ">>") {
+		return
+	}
+	op, typ = t[:2], t[2:]
+	if strings.HasSuffix(typ, "k") {
+		typ, decl = strings.TrimSuffix(typ, "k"), true
+	}
+	if _, _, isInt := c04intRange(typ); !isInt {
+		return "", "", false, false
+	}
+	return op, typ, decl, true
+}
+
+// x << T(count): the count must be representable in T and not negative, then as the untyped shift
+func (ev *c04eval) typedShift(op, typ string, x, y *c04val) *c04val {
+	if !y.isNum() || !c04representable(y, typ, true) {
+		return nil
+	}
+	n, _ := y.intValue()
+	if n.Sign() < 0 {
+		return nil
+	}
+	return ev.binary(op, x, c04num(c04Int, new(big.Rat).SetInt(n), nil))
+}
+
 // run evaluates the postfix token list; ok=false: the expression is invalid Go.
 func (ev *c04eval) run(toks []string) (*c04val, bool) {
 	var st []*c04val
@@ -488,6 +520,14 @@ func (ev *c04eval) run(toks []string) (*c04val, bool) {
 			x, y := st[len(st)-2], st[len(st)-1]
 			st = st[:len(st)-2]
 			v = ev.binary(t, x, y)
+		case c04isTypedShift(t):
+			if len(st) < 2 {
+				return nil, false
+			}
+			x, y := st[len(st)-2], st[len(st)-1]
+			st = st[:len(st)-2]
+			op, typ, _, _ := c04typedShift(t)
+			v = ev.typedShift(op, typ, x, y)
 		case t == "cmplx":
 			if len(st) < 2 {
 				return nil, false
@@ -523,10 +563,34 @@ func (ev *c04eval) run(toks []string) (*c04val, bool) {
 
 // ---------------------------------------------------------------- source rendering
 
+// constant declarations needed by the expression rendered last by c04source ("<<Tk" tokens)
+var c04prelude []string
+
+func c04pre(code string) string {
+	if len(c04prelude) == 0 {
+		return code
+	}
+	return strings.Join(c04prelude, "; ") + "; " + code
+}
+
 func c04source(toks []string) (string, bool) {
 	var st []string
+	c04prelude = nil
 	for _, t := range toks {
 		switch {
+		case c04isTypedShift(t):
+			if len(st) < 2 {
+				return "", false
+			}
+			x, y := st[len(st)-2], st[len(st)-1]
+			op, typ, decl, _ := c04typedShift(t)
+			if decl {
+				k := fmt.Sprintf("c04k%d", len(c04prelude))
+				c04prelude = append(c04prelude, "const "+k+" "+typ+" = "+y)
+				st = append(st[:len(st)-2], "("+x+" "+op+" "+k+")")
+			} else {
+				st = append(st[:len(st)-2], "("+x+" "+op+" "+typ+"("+y+"))")
+			}
 		case c04isBinop(t):
 			if len(st) < 2 {
 				return "", false
@@ -778,14 +842,34 @@ func c04typesLimit(err error) bool {
 var c04fset = token.NewFileSet()
 
 func c04typesEval(src string) (types.TypeAndValue, error) {
-	return types.Eval(c04fset, nil, token.NoPos, src)
+	if len(c04prelude) == 0 {
+		return types.Eval(c04fset, nil, token.NoPos, src)
+	}
+	// with declared constants: type-check a file and read back the (untyped or typed) constant
+	text := "package p\n" + strings.Join(c04prelude, "\n") + "\nconst c04x = " + src + "\n"
+	f, err := parser.ParseFile(c04fset, "p.go", text, 0)
+	if err != nil {
+		return types.TypeAndValue{}, err
+	}
+	var first error
+	conf := types.Config{Importer: c04importer, Error: func(e error) {
+		if first == nil {
+			first = e
+		}
+	}}
+	pkg, _ := conf.Check("p", c04fset, []*ast.File{f}, nil)
+	if first != nil {
+		return types.TypeAndValue{}, first
+	}
+	obj := pkg.Scope().Lookup("c04x").(*types.Const)
+	return types.TypeAndValue{Type: obj.Type(), Value: obj.Val()}, nil
 }
 
 var c04importer = importer.Default()
 
 // type-check "package p; const x T = expr" ; returns the typed constant
 func c04typesDecl(typ, src string) (constant.Value, error) {
-	text := "package p\nconst x " + typ + " = " + src + "\n"
+	text := "package p\n" + strings.Join(c04prelude, "\n") + "\nconst x " + typ + " = " + src + "\n"
 	f, err := parser.ParseFile(c04fset, "p.go", text, 0)
 	if err != nil {
 		return nil, err
@@ -891,13 +975,13 @@ func c04prepare(ops []string) {
 			if _, err := c04typesDecl(f[1], src); err != nil {
 				continue
 			}
-			line = "var x " + f[1] + " = " + src
+			line = c04pre("var x " + f[1] + " = " + src)
 		} else {
 			tv, err := c04typesEval(f[1] + "(" + src + ")")
 			if err != nil || tv.Value == nil {
 				continue
 			}
-			line = "var x = " + f[1] + "(" + src + ")"
+			line = c04pre("var x = " + f[1] + "(" + src + ")")
 		}
 		items = append(items, item{op, line})
 	}
@@ -933,38 +1017,6 @@ func c04prepare(ops []string) {
 
 // ---------------------------------------------------------------- Exec
 
-func c04kinds(toks []string) string {
-	// short shape description: top operator + kinds of its operands (for keys)
-	var st []string
-	ev := &c04eval{}
-	_ = ev
-	top := ""
-	for _, t := range toks {
-		switch {
-		case c04isBinop(t) || t == "cmplx":
-			if len(st) < 2 {
-				return "malformed"
-			}
-			top = t + ":" + st[len(st)-2] + ":" + st[len(st)-1]
-			st = append(st[:len(st)-2], "x")
-		case c04unops[t] != "" || t == "real" || t == "imag":
-			if len(st) < 1 {
-				return "malformed"
-			}
-			top = t + ":" + st[len(st)-1]
-			st[len(st)-1] = "x"
-		default:
-			k := "lit"
-			if v, ok := c04parseLit(t); ok {
-				k = c04kindName[v.k]
-			}
-			st = append(st, k)
-			top = k
-		}
-	}
-	return top
-}
-
 func c04opName(t string) string {
 	r := strings.NewReplacer("+", "add", "-", "sub", "*", "mul", "/", "quo", "%", "rem", "&^", "andnot", "&&", "land", "||", "lor",
 		"&", "and", "|", "or", "^", "xor", "<<", "shl", ">>", "shr", "==", "eql", "!=", "neq", "<=", "leq", ">=", "geq", "<", "lss", ">", "gtr")
@@ -985,6 +1037,21 @@ func c04topShape(toks []string) string {
 			return c04kindName[v.k]
 		}
 		switch {
+		case c04isTypedShift(t):
+			if len(st) < 2 {
+				return "malformed"
+			}
+			x, y := st[len(st)-2], st[len(st)-1]
+			st = st[:len(st)-2]
+			op, typ, _, _ := c04typedShift(t)
+			sign := "Tu" // typed unsigned count
+			if typ[0] == 'i' {
+				sign = "Ts"
+			}
+			top = c04opName(op) + sign + "-" + kn(x) + "-" + kn(y)
+			if x != nil && y != nil {
+				v = ev.typedShift(op, typ, x, y)
+			}
 		case c04isBinop(t) || t == "cmplx":
 			if len(st) < 2 {
 				return "malformed"
@@ -1051,6 +1118,11 @@ func c04exec1(op string) Result {
 			return Result{Out: "bad-op"}
 		}
 		return c04execTyped(op, f[0], f[1], f[2:])
+	case "m":
+		if len(f) < 3 {
+			return Result{Out: "bad-op"}
+		}
+		return c04execMutate(op, f[1], f[2:])
 	}
 	return Result{Out: "bad-op"}
 }
@@ -1069,7 +1141,7 @@ func c04execUntyped(op string, toks []string) Result {
 	tags := []string{"u"}
 	// (A) the interpreter
 	ir := c04interp()
-	vals, errText := evalSrc(ir, src)
+	vals, errText := evalSrc(ir, c04pre(src))
 	var got *c04val
 	gotStr := "error"
 	if errText == "" && len(vals) == 1 {
@@ -1103,6 +1175,8 @@ func c04execUntyped(op string, toks []string) Result {
 			res.Key = "untyped-float-beyond-rat-range-approximate"
 		case !wok:
 			res.Key = "untyped-accepts-invalid-" + shape
+		case got == nil && strings.HasPrefix(gotStr, "typed "):
+			res.Key = "untyped-gives-typed-value-" + shape
 		case got == nil:
 			res.Key = "untyped-rejects-valid-" + shape
 		case got.k != want.k && got.sameValue(want):
@@ -1162,7 +1236,7 @@ func c04execTyped(op, mode, typ string, toks []string) Result {
 	case "b":
 		code = "var x *big." + typ + " = " + src + "; x"
 	}
-	vals, errText := evalSrc(ir, code)
+	vals, errText := evalSrc(ir, c04pre(code))
 	accepted := errText == "" && len(vals) == 1
 	// ---- Out from the interpreter's value
 	out := "reject"
@@ -1321,6 +1395,134 @@ func c04execTyped(op, mode, typ string, toks []string) Result {
 				res.Viol = fmt.Sprintf("%s: interpreter value %s, specification %s", code, key, exp)
 			}
 		}
+	}
+	res.Tags = tags
+	return res
+}
+
+// m <B> <rpn>: the SAME compiled conversion of an untyped constant to *big.B is executed several times
+// (a function called three times; a loop body run three times) and every result is modified in place
+// (x.Add(x, x)) before the next execution: each execution must yield a fresh object holding the exact constant.
+func c04showBig(v reflect.Value, q *big.Rat) string {
+	switch p := v.Interface().(type) {
+	case *big.Int:
+		return p.String()
+	case *big.Rat:
+		return c04rat(p)
+	case *big.Float:
+		r, _ := p.Rat(nil)
+		if r != nil && q != nil && r.Cmp(q) == 0 {
+			return "=" + c04rat(r)
+		}
+		return "~"
+	}
+	return "?" + v.Type().String()
+}
+
+func c04execMutate(op, typ string, toks []string) Result {
+	src, ok := c04source(toks)
+	if !ok || (typ != "Int" && typ != "Rat" && typ != "Float") {
+		return Result{Out: "bad-op"}
+	}
+	ev := &c04eval{}
+	want, wok := ev.run(toks)
+	if ev.huge {
+		return Result{Out: "huge-shift", Tags: []string{"huge-shift"}}
+	}
+	res := Result{Nontrivial: true}
+	tags := []string{"m", "m-" + typ}
+	ir := c04interp()
+	var q *big.Rat
+	if wok && want.isNum() {
+		q = want.re
+	}
+	bt := "*big." + typ
+	cp := map[string]string{"Int": "new(big.Int).Set(x)", "Rat": "new(big.Rat).Set(x)", "Float": "new(big.Float).Copy(x)"}[typ]
+	out := "reject"
+	shared := false
+	// (a) function form
+	_, e1 := evalSrc(ir, c04pre("func c04f"+typ+"() "+bt+" { return "+src+" }"))
+	var funcVal, loopVal string
+	if e1 == "" {
+		code := "c04p" + typ + " := []" + bt + "{}; for c04i := 0; c04i < 3; c04i++ { x := c04f" + typ + "(); c04p" + typ + " = append(c04p" + typ + ", x, " + cp + "); x.Add(x, x) }; c04p" + typ
+		vals, e2 := evalSrc(ir, code)
+		if e2 == "" && len(vals) == 1 && vals[0].Kind() == reflect.Slice && vals[0].Len() == 6 {
+			l := vals[0]
+			for i := 0; i < 6; i += 2 {
+				for j := i + 2; j < 6; j += 2 {
+					if l.Index(i).Pointer() == l.Index(j).Pointer() {
+						shared = true
+					}
+				}
+			}
+			funcVal = c04showBig(l.Index(5), q) // copy taken at the third execution, before its mutation
+		} else {
+			funcVal = "error:" + truncate(e2, 80)
+		}
+		// (b) loop form: the declaration is compiled once and executed three times
+		code = c04pre("c04l" + typ + " := []" + bt + "{}; for c04i := 0; c04i < 3; c04i++ { var x " + bt + " = " + src + "; c04l" + typ + " = append(c04l" + typ + ", x, " + cp + "); x.Add(x, x) }; c04l" + typ)
+		vals, e2 = evalSrc(ir, code)
+		if e2 == "" && len(vals) == 1 && vals[0].Kind() == reflect.Slice && vals[0].Len() == 6 {
+			l := vals[0]
+			for i := 0; i < 6; i += 2 {
+				for j := i + 2; j < 6; j += 2 {
+					if l.Index(i).Pointer() == l.Index(j).Pointer() {
+						shared = true
+					}
+				}
+			}
+			loopVal = c04showBig(l.Index(5), q)
+		} else {
+			loopVal = "error:" + truncate(e2, 80)
+		}
+		fresh := "fresh"
+		if shared {
+			fresh = "shared"
+		}
+		out = "ok " + funcVal + " " + loopVal + " " + fresh
+		tags = append(tags, "m-accepted")
+	} else {
+		tags = append(tags, "m-rejected")
+	}
+	res.Out = out
+	if ev.big {
+		res.Out = "big"
+		res.Tags = append(tags, "m-beyond-limit")
+		return res
+	}
+	// specification: as the single conversion (op b), twice, and never a shared object
+	var spec string
+	switch {
+	case !wok || !want.isNum() || want.k == c04Cplx:
+		spec = "reject"
+	case typ == "Int":
+		if n, isInt := want.intValue(); isInt {
+			spec = n.String()
+		} else {
+			spec = "reject"
+		}
+	case typ == "Rat":
+		spec = c04rat(want.re)
+	default:
+		if want.re.Denom().BitLen()-1 == int(want.re.Denom().TrailingZeroBits()) {
+			spec = "=" + c04rat(want.re)
+		} else {
+			spec = "~"
+		}
+	}
+	if spec != "reject" {
+		spec = "ok " + spec + " " + spec + " fresh"
+	}
+	if spec != out {
+		shape := "invalid"
+		if wok {
+			shape = c04kindName[want.k]
+		}
+		res.Key = "big-" + strings.ToLower(typ) + "-repeated-from-" + shape
+		if shared {
+			res.Key = "big-conversion-shares-mutable-value"
+		}
+		res.Viol = fmt.Sprintf("%s executed 3 times with x.Add(x, x) after each: interpreter gives %s, required %s", bt+"("+src+")", truncate(out, 200), truncate(spec, 200))
 	}
 	res.Tags = tags
 	return res
@@ -1504,7 +1706,7 @@ func (g *c04gen) numExpr(depth int, want byte) []string {
 	sub := func(w byte) []string { return g.numExpr(depth-1, w) }
 	switch want {
 	case 'i':
-		switch r.Intn(12) {
+		switch r.Intn(13) {
 		case 0, 1, 2, 3, 4:
 			return append(append(sub('i'), sub('i')...), g.pick([]string{"+", "-", "*", "/", "%", "&", "|", "^", "&^"}))
 		case 5, 6, 7:
@@ -1513,6 +1715,11 @@ func (g *c04gen) numExpr(depth int, want byte) []string {
 			return append(append(sub('i'), cnt), g.pick([]string{"<<", ">>"}))
 		case 8:
 			return append(sub('i'), g.pick([]string{"neg", "pos", "cpl"}))
+		case 10:
+			// shift by a TYPED constant count (conversion or declared constant) of an unsigned kind;
+			// signed kinds and float/complex-kind operands are probed at top level only (known findings)
+			cnt := []string{strconv.Itoa(r.Intn(70)), strconv.Itoa(64 + r.Intn(140)), "3.0", "'\\x03'", "70", "100", "63", "64", "1e2"}[r.Intn(9)]
+			return append(append(sub('i'), cnt), g.pick([]string{"<<", ">>"})+g.pick(c04unsigned)+g.pick([]string{"", "", "k"}))
 		case 9:
 			// integral float shifted
 			return append([]string{g.pick([]string{"1.0", "8.0", "1e3", "0x1p10", "3.0", "1e20", "9007199254740993.0", "2.5", "1e30"}), strconv.Itoa(r.Intn(8))}, g.pick([]string{"<<", ">>"}))
@@ -1605,6 +1812,9 @@ func (g *c04gen) expr(depth int) []string {
 	return g.anyExpr(depth)
 }
 
+var c04unsigned = []string{"uint", "uint8", "uint16", "uint32", "uint64", "uintptr"}
+var c04signed = []string{"int", "int8", "int16", "int32", "int64"}
+
 var c04pool = []string{
 	"0", "1", "7", "0b101", "0o17", "017", "0x_FF", "1_000", "9223372036854775808", "0x1_0000_0000_0000_0000_0000",
 	"'a'", `'\n'`, "'世'",
@@ -1654,6 +1864,40 @@ func c04gen_(r *rand.Rand, tier string, emit func(string)) {
 			emit("b " + t + " " + e)
 		}
 	}
+	// (2b) bounded-exhaustive: shifts whose count is a typed constant: operand x count x {<<,>>} x 11 integer kinds x {T(c), const k T = c}
+	for _, x := range []string{"1", "5 neg", "'a'", "1.0", "2.5", "8 0i +", "0x1p70", "true", `"a"`, "1 100 <<", "9007199254740993.0"} {
+		for _, cnt := range []string{"0", "3", "70", "100", "255", "256", "1 neg", "3.0", "2.5", "'\\x03'", "4 0i +", "true"} {
+			for _, t := range append(append([]string{}, c04unsigned...), c04signed...) {
+				for _, o := range []string{"<<", ">>"} {
+					for _, k := range []string{"", "k"} {
+						emit("u " + x + " " + cnt + " " + o + t + k)
+					}
+				}
+			}
+		}
+	}
+	// results beyond 63 bits used in typed contexts and in further constant arithmetic
+	for _, t := range c04unsigned {
+		for _, k := range []string{"", "k"} {
+			emit("u 1 70 <<" + t + k + " 68 >>")
+			emit("u 1 70 <<" + t + k + " 1 70 << ==")
+			emit("d float64 1 100 <<" + t + k)
+			emit("d float32 1 100 <<" + t + k)
+			emit("d int 1 70 <<" + t + k)
+			emit("d int64 1 70 <<" + t + k + " 10 >>" + t + k)
+			emit("d uint8 'a' 1 <<" + t + k)
+			emit("d complex128 1 64 <<" + t + k)
+			emit("b Int 1 200 <<" + t + k)
+			emit("c uint64 1 63 <<" + t + k)
+		}
+	}
+	// (2c) bounded-exhaustive: repeated execution of one compiled big conversion with in-place mutation between
+	for _, t := range []string{"Int", "Rat", "Float"} {
+		for _, e := range []string{"0", "1", "7 neg", "1 1000 <<", "9223372036854775808", "18446744073709551616", "'a'", "2.0", "0.5", "2.5", "0.1", "1 3.0 /",
+			"1e30", "0x1p-200", "1 100 << 1 +", "3 4i +", "8 0i +", "true", `"a"`, "1 70 <<uint8", "1e100 1 +"} {
+			emit("m " + t + " " + e)
+		}
+	}
 	// (3) random expression trees
 	nu, nd := 2500, 2500
 	if tier == "thorough" {
@@ -1669,8 +1913,10 @@ func c04gen_(r *rand.Rand, tier string, emit func(string)) {
 			emit("d " + g.pick(c04types) + " " + e)
 		case k < 8:
 			emit("c " + g.pick(c04types) + " " + e)
-		default:
+		case k < 9:
 			emit("b " + g.pick([]string{"Int", "Rat", "Float"}) + " " + e)
+		default:
+			emit("m " + g.pick([]string{"Int", "Rat", "Float"}) + " " + e)
 		}
 	}
 }
